@@ -509,6 +509,32 @@ mod verif_driver_compile {
                 other => witness("c09_cardano/Map::try_as_data#postcondition", "try_as_data", format!("map {pairs:?}"), format!("{other:?}"), "a Map"),
             }
         }
+        // integers keep their value on both paths, whatever their size (the language's Int is 128 bits wide)
+        for v in [0i128, 1, -1, (1 << 63) - 1, 1 << 63, (1 << 63) + 1, (1 << 64) - 1, 1 << 64, -(1 << 63), -(1 << 63) - 1, -(1 << 64), -(1 << 64) - 1, i128::MAX, i128::MIN] {
+            n += 1;
+            for (path, r) in [("try_as_data", quiet(|| num(v).try_as_data())), ("compile_data_expr", quiet(|| compile_data_expr(&num(v)))), ("in a list", quiet(|| tir::Expression::List(vec![num(v)]).try_as_data().map(|d| match d { primitives::PlutusData::Array(items) => items.to_vec().remove(0), other => other })))] {
+                let got: Option<i128> = match &r {
+                    Ok(Ok(primitives::PlutusData::BigInt(primitives::BigInt::Int(i)))) => Some(i128::from(*i)),
+                    Ok(Ok(primitives::PlutusData::BigInt(primitives::BigInt::BigUInt(b)))) => Some(b.iter().fold(0i128, |a, x| a.wrapping_mul(256).wrapping_add(*x as i128))),
+                    Ok(Ok(primitives::PlutusData::BigInt(primitives::BigInt::BigNInt(b)))) => Some(-1 - b.iter().fold(0i128, |a, x| a.wrapping_mul(256).wrapping_add(*x as i128))),
+                    _ => None,
+                };
+                if got != Some(v) {
+                    witness("c09_cardano/Number::try_as_data#postcondition", "try_as_data", format!("integer {v} via {path}"), format!("{r:?}").chars().take(120).collect(), "an integer datum with exactly this value");
+                }
+            }
+        }
+        // a list keeps one slot per element: an absent element is the unit constructor, not a gap
+        n += 1;
+        let l = tir::Expression::List(vec![num(1), tir::Expression::None, num(2)]);
+        match quiet(|| l.try_as_data()) {
+            Ok(Ok(primitives::PlutusData::Array(items))) => {
+                let got: Vec<String> = items.iter().map(|f| format!("{f:?}")).collect();
+                let exp: Vec<String> = vec![format!("{:?}", num(1).try_as_data().unwrap()), format!("{:?}", tir::Expression::None.try_as_data().unwrap()), format!("{:?}", num(2).try_as_data().unwrap())];
+                if got != exp { witness("c09_cardano/List::try_as_data#postcondition", "try_as_data", "list [1, none, 2]".into(), format!("{} items", got.len()), "three items: 1, unit, 2"); }
+            }
+            other => witness("c09_cardano/List::try_as_data#postcondition", "try_as_data", "list [1, none, 2]".into(), format!("{other:?}").chars().take(100).collect(), "an Array of three items"),
+        }
         // list items keep their order
         n += 1;
         let l = tir::Expression::List(vec![num(3), num(1), num(2)]);
@@ -620,6 +646,31 @@ mod verif_driver_compile {
             }
         }
         println!("VERIF-CASES fn=compile_mint_block n={n}");
+    }
+
+    // ---- C10 (reproducibility): collateral inputs come out in template order, the same in every compilation.
+    // BOUND: 12 distinct collateral references, 33 repetitions.
+    #[test]
+    fn compile_collateral_deterministic() {
+        let mut n = 0;
+        let mut tx = empty_tx();
+        let refs: Vec<tx3_tir::model::core::UtxoRef> = (0..12u8).map(|i| tx3_tir::model::core::UtxoRef { txid: vec![i.wrapping_mul(53).wrapping_add(3); 32], index: (11 - i) as u32 }).collect();
+        tx.collateral = vec![tir::Collateral { utxos: tir::Expression::UtxoRefs(refs[..5].to_vec()) }, tir::Collateral { utxos: tir::Expression::UtxoRefs(refs[5..].to_vec()) }];
+        let want: Vec<(Vec<u8>, u64)> = refs.iter().map(|r| (r.txid.clone(), r.index as u64)).collect();
+        for _ in 0..33 {
+            n += 1;
+            match quiet(|| compile_collateral(&tx)) {
+                Ok(Ok(got)) => {
+                    let got: Vec<(Vec<u8>, u64)> = got.iter().map(|i| (i.transaction_id.to_vec(), i.index)).collect();
+                    if got != want {
+                        witness("c10_cardano/compile_collateral#reproducible", "compile_collateral", "12 collateral references in two blocks".into(), format!("order {:?}", got.iter().map(|x| x.1).collect::<Vec<_>>()), "the references in template order, the same in every compilation");
+                        break;
+                    }
+                }
+                other => { witness("c10_cardano/compile_collateral#reproducible", "compile_collateral", "12 collateral references".into(), format!("{other:?}").chars().take(100).collect(), "Ok"); break; }
+            }
+        }
+        println!("VERIF-CASES fn=compile_collateral n={n}");
     }
 
     // ---- C10 (reproducibility): the Plutus scripts of the witness set come out in template order, the same in every
